@@ -127,6 +127,8 @@ def oracle(case, line):
         return None
     if line in ("notutf8", "bad-args", "unknown-command"):
         return "unexpected observation: " + line
+    if line.endswith(" vd=differs"):
+        return "the serde value deserializer (str::parse::<de::ValueDeserializer>) reports another verdict / span / message / rendering than Value::from_str"
     text = case.args[0]
     f = fields(line)
     bad = err_checks(text, f)
